@@ -191,7 +191,9 @@ def worker_loop(
 
                     # 6) Acknowledge the incoming message if transport supports it
                     msg.ack()
-                except Exception as e:
+                except (Exception, SystemExit) as e:
+                    # A processor that calls sys.exit() ends its job, not the worker:
+                    # SystemExit is reported like any other failure of the job.
                     # Log any error during processing without crashing the loop
                     worker_logger.exception(f"Worker failed job {job_id}: {e}")
                     # Report the failure so the master can fail the job's Future
